@@ -18,30 +18,41 @@ package env
 
 import "strings"
 
-// ExpandEnvWithDefault expands template variables with optional default for {}
+// ExpandEnvWithDefault expands template variables with optional default for {}.
+// The template is scanned once from left to right: "{}" is replaced by the
+// default value, "{key}" by envs[key]; substituted text is never expanded
+// again, so the result does not depend on map iteration order.
 func ExpandEnvWithDefault(template string, envs map[string]string, defaultValue ...string) string {
 	if template == "" {
 		return ""
 	}
-
-	result := template
-
-	// Handle special case of {} - use provided default or first available file variable
-	if strings.Contains(result, "{}") {
-		defaultVal := ""
-		if len(defaultValue) > 0 && defaultValue[0] != "" {
-			defaultVal = defaultValue[0]
-		}
-		result = strings.ReplaceAll(result, "{}", defaultVal)
+	defaultVal := ""
+	if len(defaultValue) > 0 {
+		defaultVal = defaultValue[0]
 	}
 
-	// Replace named variables
-	for key, value := range envs {
-		if key != "" { // Skip empty key used for {} default
-			result = strings.ReplaceAll(result, "{"+key+"}", value)
+	var sb strings.Builder
+	for i := 0; i < len(template); {
+		if template[i] == '{' {
+			if end := strings.IndexByte(template[i:], '}'); end > 0 {
+				key := template[i+1 : i+end]
+				if key == "" {
+					// {} - use provided default
+					sb.WriteString(defaultVal)
+					i += end + 1
+					continue
+				}
+				if value, ok := envs[key]; ok {
+					sb.WriteString(value)
+					i += end + 1
+					continue
+				}
+			}
 		}
+		sb.WriteByte(template[i])
+		i++
 	}
-	return result
+	return sb.String()
 }
 
 // ExpandEnvSlice expands template variables in a slice of strings
